@@ -160,7 +160,9 @@ class CallMixin:
                 if isinstance(v, VOpaque):
                     return VBool(models.birth(v.t) > 0)
                 if isinstance(v, VPtr):
-                    old = getattr(self.frame, 'old', None)
+                    # in a callee PRECONDITION (the callee's pre-state is not taken yet) fresh() refers to the entry of
+                    # the function under contract: "created by the caller during this call"
+                    old = getattr(self.frame, 'old', None) or getattr(self.frames[0], 'old', None)
                     return VBool(old is not None and v.addr not in old[1])
                 self.limit('fresh() of a non-object', node)
         fn = self.res(self.ev(node.func))
